@@ -83,6 +83,10 @@ fn axes(quick: bool, f32: bool) -> Vec<Axis> {
         ("dec3", vec![0.1, 0.2, 0.30000000000000004, 0.4, 0.7, 1.1]),
         ("geo", vec![1.0, 3.0, 9.0, 27.0, 81.0, 243.0]),
         ("far", vec![-1048576.0, -1048575.0, -1048573.5, 2.0]),
+        ("log80", (1..=80).map(|i| (i as f64).ln()).collect()),
+        ("wave120", (0..120).map(|i| i as f64 + 2.5 * (i as f64 * 0.35).sin()).collect()),
+        ("sqrt60", (0..60).map(|i| (16.0 * i as f64).sqrt()).collect()),
+        ("wave600", (0..600).map(|i| i as f64 * 0.01 + 0.3 * (i as f64 * 0.021).sin()).collect()),
     ] {
         v.push(Axis::new(name.to_string(), x));
     }
